@@ -621,12 +621,12 @@ func (t tags) Len() int      { return len(t.t) }
 func (t tags) Swap(i, j int) { t.t[i], t.t[j] = t.t[j], t.t[i] }
 func (t tags) Less(i, j int) bool {
 	if !t.flat {
-		if t.t[i].Cum != t.t[j].Cum {
-			return abs64(t.t[i].Cum) > abs64(t.t[j].Cum)
+		if ci, cj := abs64(t.t[i].Cum), abs64(t.t[j].Cum); ci != cj {
+			return ci > cj
 		}
 	}
-	if t.t[i].Flat != t.t[j].Flat {
-		return abs64(t.t[i].Flat) > abs64(t.t[j].Flat)
+	if fi, fj := abs64(t.t[i].Flat), abs64(t.t[j].Flat); fi != fj {
+		return fi > fj
 	}
 	return t.t[i].Name < t.t[j].Name
 }
